@@ -15,6 +15,9 @@ CHECKS = {
     'C12': ('call-graph who-calls rule for the single matcher; linear normal form of token guards and a confirmed table of skip/start/last-token combinations in the sibling scanner loops; structural fingerprint + decision-feature comparison of the two matcher copies; normalisation-feature extraction at every trie lookup',
             'Decides that interpreter, validator and debugger share one matcher, that every whitespace-splitting scanner (incl. the copies shipped for generated C) takes every non-empty token, that the shipped copy of the matcher has the same decision features, and that Promela and VHDL normalise descriptors alike before static resolution.',
             'Not decided: the relation nameMatch computes on all strings (needs execution or a solver).'),
+    'C13': ('path-language check: product of each engine\'s step() CFG (386/323 blocks, exception edges from the exception-flow analysis) with a hand-written nesting DFA over monitor-macro expansions, callback calls classified by origin and configuration updates; exact abstract interpretation of the 6-bit _flags word for the stable-notice clause; same product for the executor brackets; call-graph and CFG ordering rules for finalize and monitor hand-over',
+            'Decides on every CFG path, normal and exceptional, of both engines and of the content executor that notifications are balanced and nested (exits, then transitions, then entries), that configuration updates/content/initData/(un)invoke only occur inside their bracket, that the stable notice is issued exactly when STABLE is newly set and the step returns MACROSTEPPED, and that invoked sessions get their monitors before they start.',
+            'Not decided: which states/transitions are reported (values); monitors that throw.'),
     'C15': ('table extraction from if-chains/switches (escape, unescape, jsmn accept sets) compared as relations; forward must-analysis of container non-emptiness on the CFG of Data::fromJSON; linear-form comparison of allocation size and parser capacity',
             'Decides for all byte values that the JSON escape writer, the unescape reader and the jsmn string scanner agree on every escaped character, that Data::fromJSON never peeks or pops an empty stack on any CFG path, and that the sentinel token the walker relies on is kept.',
             'Not decided: equality of round-tripped Data trees for all values; absence of out-of-bounds inside jsmn.c itself; Event<->Data agreement is decided under C14.'),
